@@ -37,3 +37,28 @@ def adapt(key, result, env):
                           pt=box.presentation_time_delta if v0 else box.presentation_time))
         return out
     return result
+
+
+def finding_interval_nonpositive(i):
+    """C16: the event options accept any integer for interval; create_emsg_boxes divides by it / loops on it."""
+    import signal
+
+    class _T(BaseException):
+        pass
+
+    def on(sig, frm):
+        raise _T()
+    ev = PingPongEvents(start=0, interval=int(i['interval']), count=0, duration=10, timescale=100, version=0, inband=True)
+    rep = NS(timescale=100, segments=[NS(duration=400), NS(duration=400)])
+    moof = NS(traf=NS(tfdt=NS(base_media_decode_time=int(i['tfdt']))))
+    signal.signal(signal.SIGALRM, on)
+    signal.alarm(3)
+    try:
+        ev.create_emsg_boxes(segment_num=1, mod_segment=1, moof=moof, representation=rep)
+        return False, 'returned normally'
+    except _T:
+        return True, f'interval={i["interval"]}: no result within 3 s (runs without bound)'
+    except (ZeroDivisionError, AssertionError) as err:
+        return True, f'interval={i["interval"]}: {type(err).__name__} (unhandled on the segment path -> 5xx)'
+    finally:
+        signal.alarm(0)
